@@ -201,3 +201,7 @@ func Symbolic() bool { return false }
 // Output returns what the target wrote to stdout so far (engine: captured
 // buffer; native: not available).
 func Output() string { return "" }
+
+// IntMode lets the engine discharge queries with the mathematical-integer
+// printer whenever its no-wrap interval analysis succeeds (natively a no-op).
+func IntMode(on bool) {}
